@@ -12,7 +12,7 @@ open PyTRS
 def chomp (s : String) : String :=
   String.ofList ((s.toList.reverse.dropWhile (fun c => c == '\n' || c == '\r')).reverse)
 
-partial def loop (h : IO.FS.Stream) (out : IO.FS.Stream) (w : PyTRS.World.World) : IO Unit := do
+partial def loop (h : IO.FS.Stream) (out : IO.FS.Stream) (w : Driver.DState) : IO Unit := do
   let line ← h.getLine
   if line.isEmpty then return ()
   let (w', resp) := Driver.handleW w ((chomp line).splitOn "\t")
